@@ -50,7 +50,9 @@ import (
 
 	"github.com/massnetorg/mass-core/logging"
 	"github.com/massnetorg/mass-core/poc/pocutil"
+	"massnet.org/mass/poc/engine"
 	massdb_v1 "massnet.org/mass/poc/engine/massdb/massdb.v1"
+	"massnet.org/mass/poc/engine/spacekeeper/capacity"
 	"verif/harness/internal/ref"
 	"verif/harness/internal/vh"
 )
@@ -580,6 +582,12 @@ func inspect(cs *caseSpec, dir string, rd *refData, final, ranRemoval bool) (ins
 	ins.HasA = mdb.HashMapA != nil
 	ins.PrePlotted, ins.Plotted, ins.Progress = mdb.Progress()
 	ins.Ready = mdb.Ready()
+	// the keeper decides ready/registered when it loads the space (NewWorkSpace): ask it too
+	keeperReady := false
+	if ws, werr := capacity.NewWorkSpace("massdb.v1", dir, int64(cs.Key), pub, bl); werr == nil {
+		keeperReady = ws.State() == engine.Ready
+		ws.Close()
+	}
 
 	// O5: checkpoints in range
 	if ins.FileA && ins.CkA > int64(vol) {
@@ -590,7 +598,7 @@ func inspect(cs *caseSpec, dir string, rd *refData, final, ranRemoval bool) (ins
 	}
 
 	// map B: everything when reported plotted (O1/O3), else what lies below the recorded checkpoint (O5)
-	reported := ins.Plotted || ins.Ready
+	reported := ins.Plotted || ins.Ready || keeperReady
 	limit := vol
 	if !reported {
 		limit = 0
@@ -632,6 +640,15 @@ func inspect(cs *caseSpec, dir string, rd *refData, final, ranRemoval bool) (ins
 		ins.FullCompare = reported
 	}
 	if diff > 0 {
+		if keeperReady && !(ins.Plotted || ins.Ready) {
+			defer func() {
+				for i := range probs {
+					if probs[i].Extra != nil {
+						probs[i].Extra["reported_ready_by"] = "keeper workspace state only (massdb Progress says not plotted)"
+					}
+				}
+			}()
+		}
 		extra := map[string]interface{}{"first_differing_z": firstZ, "stored_x_hex": sx, "stored_xp_hex": sxp, "reference_x_hex": rx, "reference_xp_hex": rxp,
 			"entries_compared": limit, "entries_differing": diff, "missing": missing, "spurious": spurious, "different_pair": other, "unreadable": unreadable}
 		switch {
